@@ -178,6 +178,27 @@ class Executor(object):
         st.objcls[self.refctr] = cls
         return VObj(self.refctr, cls)
 
+    def materialize(self, st, obj, depth=0):
+        """eagerly create all declared fields of an object, recursively (pre-state snapshots and spec forks must
+        see the same symbolic fields)"""
+        if obj.cls.startswith('$') or depth > 4:
+            return
+        decl = self.reg.class_decl(obj.cls, self.db)
+        if decl is None:
+            return
+        for f, ty in decl['fields'].items():
+            if f in st.heap[obj.ref]:
+                continue
+            alts = expand_unions(parse_type(ty))
+            if len(alts) != 1:
+                raise Unsupported('union-typed field %s.%s (use opt[...] or a contract variant)' % (obj.cls, f))
+            prev = getattr(st, '_mat_depth', 0)
+            st._mat_depth = depth + 1
+            try:
+                st.heap[obj.ref][f] = self.fresh(st, alts[0], '%s.%s' % (obj.cls.split(':')[-1], f))
+            finally:
+                st._mat_depth = prev
+
     def fresh(self, st, ty, name, idx=()):
         """fresh symbolic value of union-free type `ty`; side facts go to st.pc."""
         ty = parse_type(ty)
@@ -236,7 +257,9 @@ class Executor(object):
         if k == 'obj':
             if idx:
                 raise Unsupported('sequences of objects are not supported (%s)' % name)
-            return self.new_ref(st, ty.name)
+            obj = self.new_ref(st, ty.name)
+            self.materialize(st, obj, getattr(st, '_mat_depth', 0))
+            return obj
         if k in self.B.STUB_TYPES:
             return self.B.STUB_TYPES[k](self, st, ty, name, idx)
         if k == 'union':
@@ -750,8 +773,9 @@ class Executor(object):
             # undeclared attribute: an unknown value (it may be falsy, it may be callable).  It is a function of the
             # object and the epoch, so two reads without an intervening opaque call agree.
             cache = self.__dict__.setdefault('_ofield_cache', {})
-            c = cache.setdefault(('$attr', attr, st.epoch), {})
-            val = self._fresh_fn(st, 'opaque', 'attr_%s@%d' % (attr, st.epoch), (v.t,), c)
+            ep = 0 if attr in tgt.get('stable_fields', ()) else st.epoch
+            c = cache.setdefault(('$attr', attr, ep), {})
+            val = self._fresh_fn(st, 'opaque', 'attr_%s@%d' % (attr, ep), (v.t,), c)
             val.bound_self = v
             val.attr = attr
             return val
@@ -853,6 +877,10 @@ class Executor(object):
                 sub.module = ca[0].module
                 sub.spec = True
                 return [(st, self.ev1(sub, ca[1]))]
+        if ci is not None:
+            ga = self.db.find_method(ci, '__getattr__')
+            if ga is not None:
+                return self.call_function(st, ga, [v, VStr(attr)], {}, node, force_inline=True)
         if st.spec:
             raise Unsupported('spec reads undeclared field %s.%s' % (v.cls, attr))
         raise Unsupported('attribute %s.%s is neither a declared field, method nor class attribute (line %s)'
